@@ -28,7 +28,10 @@ except Exception:
     pass
 os.umask(0o022)
 
+import logging  # noqa: E402
 import warnings  # noqa: E402
+
+logging.disable(logging.CRITICAL)  # simpletal logs through the logging module
 
 warnings.filterwarnings("ignore", category=SyntaxWarning)
 
